@@ -69,6 +69,16 @@ def run_property(prop, tier, repo_root, seed, open_findings):
             undecided.append({'name': 'lemma.' + name, 'reason': r.reason})
             continue
         obligations.extend(('lemma:' + name, ob) for ob in r.obligations)
+    # regular-expression facts about the lexer patterns
+    if 'lexer' in u.get('regex', []):
+        from . import lexfacts
+        try:
+            facts = lexfacts.facts(eng.repo)
+            functions.append({'name': 'penman._lexer:PATTERNS/PENMAN_RE/TRIPLE_RE (regex facts)', 'tier': 'P',
+                              'obligations': len(facts)})
+            obligations.extend(('regex:lexer', ob) for ob in facts)
+        except Exception as e:
+            undecided.append({'name': 'regex:lexer', 'reason': 'patterns could not be read/translated: %s' % e})
     # definitional clauses are not obligations
     obligations = [(k, ob) for k, ob in obligations if not ob.name.split('#')[0].endswith('post.define')]
     plain, groups = apply_induction(eng, obligations)
